@@ -4,6 +4,7 @@
   real crate; outputs are compared line by line.
 -/
 import CorgiModel.Program
+import CorgiSpec.ConvAt
 
 namespace Corgi
 
@@ -30,6 +31,8 @@ inductive Cmd (S : Type) where
   | backwardc (v : String) (seed : String)
   | grad (v : String) | takegrad (w v : String) | cleargrad (v : String) | setgrad (v w : String)
   | show (v : String) | idx (v : String) (i : List Nat) | idxflat (v : String) (i : Nat)
+  /-- one element of `a.conv(f, (sr, sc))` (the implementation computes the whole convolution and indexes it) -/
+  | convat (a f : String) (sr sc : Nat) (i : List Nat)
   | eq (a b : String) | same (a b : String) | samegrad (a b : String)
   | lin (c : String) (al : S) (a : String) (be : S) (b : String)
   | sumgrad (c : String) (parts : List String) | probe (v : String) | flags (v : String) | probekid (v : String) (i : Nat) | own (v : String)
@@ -203,6 +206,14 @@ def exec (σ : State S) (c : Cmd S) : R (State S × Out S) :=
     let h ← σ.get v
     let x ← (σ.tensorOf h).index i
     pure (σ, .scalar x)
+  | .convat a f sr sc i => do
+    let ha ← σ.get a; let hf ← σ.get f
+    let img := σ.tensorOf ha
+    let flt := σ.tensorOf hf
+    -- the element of the sliding-window definition (= indexing the model's `conv`: `convat_spec`)
+    if convValidB img flt sr sc && inRange (convOutDims img flt sr sc) i then
+      pure (σ, .scalar (convElem img flt sr sc i))
+    else throw .modelGap
   | .idxflat v i => do
     let h ← σ.get v
     let x ← (σ.tensorOf h).indexFlat i
